@@ -6,11 +6,21 @@ For every workload EVERY mutating file-system operation index is a crash point (
 entries are lost), then a new process opens the machine and looks every key up.  thorough adds all double crashes
 (crash during the recovery from a crash).
 
+A workload = a replicated log (entries Set(key, value) with their raft indexes) + a sequence of API calls that consume
+it.  Besides the small base log (keys a,b,c, short values, indexes 1,2,3,...) the workloads vary, boundary directed,
+  value sizes     one call holding values around 1/2x, 1x, 2x, 4x the store's memtable / WAL block (32 KiB), alone, in the
+                  middle of a batch, several writes of one key within one call, and inside a recovered snapshot
+  record counts   number of records of the recovered snapshot (user keys + the applied-index record) around 32 .. 4096
+  index magnitude raft indexes with gaps (not every raft index reaches the state machine) crossing 2^7, 2^8, 2^14, 2^16,
+                  2^32, 2^63, ... up to 2^64-1, reached by updates and by a snapshot's index
+  crash after ack every workload has crash points between two calls and after its last call (an acknowledged call
+                  followed by no further durable write)
+
 Monitors (the property itself, on what the implementation did):
   reopen      Open after the crash returns without error or panic
   contents    the reported index i and the lookups agree: every key's value is the one obtained by applying exactly
-              the log entries <= i (the foreign snapshot holds entries 1..s of the same log, so "snapshot + updates
-              <= i" = entries 1..i; all values of the log are distinct, so every i has its own contents)
+              the log entries with an index <= i (the foreign snapshot holds a prefix of the same log, so "snapshot +
+              updates <= i" = entries <= i; all values of a log are distinct, so every position has its own contents)
   acked       i >= the index returned by the last call that had returned before the crash (either phase)
   call        a call that completed before the crash returned ok
 Correspondence with the model (coq/theories/DiskKVModel.v, evaluated by coqc through DiskKVRun.xcase):
@@ -22,12 +32,103 @@ Correspondence with the model (coq/theories/DiskKVModel.v, evaluated by coqc thr
 import glob, json, os, re
 from vlib import *
 
+
+class Log:
+    """a replicated log: entry j (1-based) = Set(key, value) with raft index idx; value = 'v<j>' or 'v<j>~<bytes>'
+    (the executor pads the latter to that many bytes); beyond its end the log repeats with consecutive indexes
+    (as the executor does)"""
+    def __init__(self, ents):
+        self.ents = []            # (key, value, index)
+        prev = 0
+        for e in ents:
+            k, v = e[0], e[1]
+            ix = e[2] if len(e) > 2 and e[2] is not None else prev + 1
+            assert ix > prev
+            self.ents.append((k, v, ix))
+            prev = ix
+        self.n = len(self.ents)
+        self.keys = sorted(set(e[0] for e in self.ents))
+        self.kcode = {k: i + 1 for i, k in enumerate(self.keys)}
+        self.vnum = {}
+        for j, e in enumerate(self.ents):
+            assert e[1] not in self.vnum, "values of a log must be pairwise distinct"
+            self.vnum[e[1]] = j + 1
+        out, prev = [], 0
+        for (k, v, ix) in self.ents:
+            out.append("%s:%s%s" % (k, v, "" if ix == prev + 1 else "@%d" % ix))
+            prev = ix
+        self.spec = ",".join(out)
+        self._cont = {}
+
+    @staticmethod
+    def parse(spec):
+        ents = []
+        for e in spec.split(","):
+            k, v = e.split(":", 1)
+            ix = None
+            if "@" in v:
+                v, x = v.rsplit("@", 1)
+                ix = int(x)
+            ents.append((k, v, ix))
+        return Log(ents)
+
+    def ent(self, j):
+        if j <= self.n:
+            return self.ents[j - 1]
+        k, v, _ = self.ents[(j - 1) % self.n]
+        return (k, v, self.ents[-1][2] + (j - self.n))
+
+    def index_at(self, pos):
+        return 0 if pos == 0 else self.ent(pos)[2]
+
+    def pos_of(self, idx):
+        """number of entries with an index <= idx"""
+        last = self.ents[-1][2]
+        if idx > last:
+            return self.n + (idx - last)
+        lo, hi = 0, self.n
+        while lo < hi:
+            mid = (lo + hi) // 2
+            if self.ents[mid][2] <= idx:
+                lo = mid + 1
+            else:
+                hi = mid
+        return lo
+
+    def contents(self, pos):
+        if pos not in self._cont:
+            m = {}
+            for j in range(1, pos + 1):
+                k, v, _ = self.ent(j)
+                m[k] = v
+            self._cont[pos] = m
+        return self._cont[pos]
+
+    def model_keys(self):
+        """the keys whose lookups are compared with the model's (the monitors look at all keys): all, or for a large
+        key space the short-named keys (written by updates too), both ends and every n-th key"""
+        if len(self.keys) <= 300:
+            return self.keys
+        step = len(self.keys) // 24
+        return [k for i, k in enumerate(self.keys) if len(k) < 3 or i % step == 0 or i >= len(self.keys) - 2]
+
+    def vcode(self, v):
+        if v == "":
+            return None
+        return self.vnum.get(v, 999999)
+
+    def batch_term(self, pos, n):
+        return "[" + "; ".join("(%d, %d)" % (self.kcode[self.ent(j)[0]], self.vcode(self.ent(j)[1]))
+                               for j in range(pos + 1, pos + n + 1)) + "]"
+
+    def snap_term(self, pos):
+        m = self.contents(pos)
+        return "[" + "; ".join("(%d, %d)" % (self.kcode[k], self.vcode(m[k])) for k in sorted(m)) + "]"
+
+
 KEYPAT = "abacbbaccabcaabcbcacbabcc"
-KEYS = ["a", "b", "c"]
 LOGLEN = 60
-LOG = [(KEYPAT[i % len(KEYPAT)], "v%d" % (i + 1)) for i in range(LOGLEN)]
-LOGSTR = ",".join("%s:%s" % e for e in LOG)
-KCODE = {"a": 1, "b": 2, "c": 3}
+BASE = Log([(KEYPAT[i % len(KEYPAT)], "v%d" % (i + 1)) for i in range(LOGLEN)])
 
 FIXED = [
     ("first-open", "O"),
@@ -38,20 +139,115 @@ FIXED = [
     ("recover-close-reopen-recover", "O,U3,R1,C,O,U1,R2,U1"),
 ]
 PHASE2 = "O,U1,R1,U1,C"
+SPARE = 8            # log entries every generated log has beyond what its phase-1 calls consume (phase 2 needs 3)
+
+# the store is opened with MemTableSize 32 KiB (tests/diskkv.go createDB); pebble treats a batch above half of it as
+# "large", rotates the memtable when it is full, writes its log in 32 KiB blocks
+MEMT = 32 * 1024
+# (a batch counts as large by its memtable footprint, ~200 bytes per entry more than its data: MEMT/2 - 600 is the largest
+# of the sizes that still takes the regular memtable path)
+SIZES_Q = [MEMT // 4 + 1, MEMT // 2 - 600, MEMT // 2 - 1, MEMT // 2, MEMT // 2 + 1, MEMT // 2 + 600, MEMT - 1, MEMT + 1, MEMT + 7000,
+           2 * MEMT + 5000]
+SIZES_T = SIZES_Q + [MEMT // 8, MEMT // 4, MEMT // 2 - 300, MEMT, 2 * MEMT, 2 * MEMT + 1, 4 * MEMT + 3, 300000]
+# 6400 = 2^8 * 5^2 and 5040 = 2^4 * 3^2 * 5 * 7 are multiples of most round numbers (1..10, 12, 14, 15, 16, 18, 20, 21, 24,
+# 25, 28, 30, 32, 35, 36, 40, 42, 45, 48, 50, 56, 60, 63, 64, 70, 72, 80, 100, 128, ...): whatever the size of a chunk
+# in which records are processed, some workload has a whole number of chunks, with and without the index record
+COUNTS_FIXED_Q = [63, 64, 65, 128, 256, 5040, 5041, 6400, 6401]
+COUNTS_POOL = [31, 32, 33, 100, 127, 129, 200, 255, 257, 500, 512]
+COUNTS_T = [1000, 1024, 1025, 2048, 4096]
+BOUNDS_FIXED_Q = [2 ** 7, 2 ** 8, 2 ** 14, 2 ** 32, 2 ** 63, 2 ** 64 - 4]
+BOUNDS_POOL = [2 ** 15, 2 ** 16, 2 ** 21, 2 ** 24, 2 ** 28, 2 ** 31, 2 ** 35, 2 ** 40, 2 ** 48, 2 ** 56, 2 ** 62, 1000, 10 ** 6]
 
 
-def contents(i):
-    m = {}
-    for (k, v) in LOG[:i]:
-        m[k] = v
-    return m
+def consumed(calls):
+    return sum(int(c[1:]) for c in calls.split(",") if c[0] in "UR" and len(c) > 1)
 
 
-def vcode(v):
-    if v == "":
-        return None
-    m = re.fullmatch(r"v(\d+)", v)
-    return int(m.group(1)) if m else 999999
+def mk_log(keys_vals_idx, need):
+    """entries as given (value sizes: (key, size or None, index or None)), then SPARE small ones on keys a,b,c"""
+    ents = []
+    for j, (k, size, ix) in enumerate(keys_vals_idx):
+        ents.append((k, "v%d" % (j + 1) + ("~%d" % size if size else ""), ix))
+    while len(ents) < need + SPARE:
+        j = len(ents)
+        ents.append(("abc"[j % 3], "v%d" % (j + 1), None))
+    return Log(ents)
+
+
+def size_workloads(rng, sizes, reps):
+    """one Update call holding large values: alone, in the middle of a batch, several writes of one key in one call,
+    a call of large values only, large values inside a recovered snapshot and in the store it replaces"""
+    shapes = [
+        ("size-mid-batch", "O,U2,U3,U1,Y,C", lambda z: [("a", None), ("b", None), ("a", None), ("b", z[0]), ("c", None), ("a", None)]),
+        ("size-same-key", "O,U1,U3,U3,C,O,U1", lambda z: [("a", None), ("a", None), ("a", z[0]), ("b", None),
+                                                          ("b", z[1]), ("b", None), ("c", z[2]), ("a", None)]),
+        ("size-same-key-2", "O,U3,U2,Y", lambda z: [("b", z[0]), ("a", None), ("b", None), ("c", None), ("c", z[1])]),
+        ("size-all-large", "O,U1,U3,U1,C", lambda z: [("a", z[0]), ("a", z[1]), ("b", z[2]), ("c", z[0]), ("b", None)]),
+        ("size-in-snapshot", "O,U2,R3,U1,C", lambda z: [("a", z[0]), ("b", None), ("c", z[1]), ("a", None), ("b", z[2]), ("c", None)]),
+        ("size-single", "O,U1,U1,U1", lambda z: [("a", None), ("b", z[0]), ("a", None)]),
+    ]
+    out, pool = [], []
+    for r in range(reps):
+        for (name, calls, f) in shapes:
+            z = []
+            for _ in range(3):
+                if not pool:
+                    pool = list(sizes)
+                    rng.shuffle(pool)
+                z.append(pool.pop())
+            ents = [(k, sz, None) for (k, sz) in f(z)]
+            out.append(("%s-%d" % (name, r + 1), calls, mk_log(ents, consumed(calls))))
+    return out
+
+
+def count_workloads(totals):
+    """recovery from a snapshot of T records (T-1 user keys + the applied-index record): on a store with history,
+    followed by updates; and on an empty store, followed by nothing (every later crash point is 'after the ack')"""
+    out = []
+    for t in totals:
+        n = t - 1
+        ents = [("k%04d" % (j + 1), None, None) for j in range(n)]
+        out.append(("count-%d-after-updates" % t, "O,U2,R%d,U1,C" % (n - 2), mk_log(ents, n + 1)))
+        out.append(("count-%d-on-empty" % t, "O,R%d" % n, mk_log(ents, n)))
+    return out
+
+
+def index_workloads(bounds):
+    """raft indexes crossing B: by updates (B-2, B-1, B, close, reopen, B+1), by one call whose entries have a gap between
+    them (1, 2, B-2 in one call, then B-1, B in one call), and by a snapshot's index (B, then B+2)"""
+    out = []
+    for b in bounds:
+        ents = [("a", None, None), ("b", None, None), ("c", None, b - 2), ("a", None, None), ("b", None, None), ("c", None, None)]
+        top = 2 ** 64 - 1
+        lg = mk_log(ents, 6)
+        if lg.ents[-1][2] > top:
+            lg = Log(lg.ents[:6 + max(0, top - (b + 1))])
+        out.append(("index-%d-by-updates" % b, "O,U2,U1,U1,U1,C,O,U1,Y", lg))
+        out.append(("index-%d-gap-inside-call" % b, "O,U3,U2,C,O,U1", lg))
+        ents = [("a", None, None), ("b", None, None), ("c", None, None), ("a", None, b), ("b", None, None), ("c", None, None), ("a", None, None)]
+        lg = mk_log(ents, 7)
+        if lg.ents[-1][2] > top:
+            lg = Log(lg.ents[:7 + max(0, top - (b + 3))])
+        out.append(("index-%d-by-snapshot" % b, "O,U1,R3,U1,C,O,R1,U1", lg))
+    return out
+
+
+def rich_log(rng, n):
+    """a log mixing the dimensions: 3-8 keys, a few large values, index gaps up to a boundary"""
+    keys = ["a", "b", "c", "d", "e", "f", "g", "h"][:rng.choice([3, 3, 5, 8])]
+    n = max(n, 4)
+    ents, gaps = [], sorted(rng.sample(range(1, n), 2))
+    idx = 0
+    for j in range(n):
+        sz = rng.choice(SIZES_T) if rng.random() < 0.15 else None
+        ix = None
+        if j in gaps:
+            b = rng.choice(BOUNDS_FIXED_Q[:5] + BOUNDS_POOL)
+            if b - 1 > idx + 1:
+                ix = b - 1
+        idx = ix if ix is not None else idx + 1
+        ents.append((rng.choice(keys), sz, ix))
+    return mk_log(ents, n)
 
 
 def random_workload(rng):
@@ -104,19 +300,27 @@ def parse_phase(rec):
     return {"n": int(m.group(1)), "crash": int(m.group(2)), "at": m.group(3), "calls": calls, "trace": expand(m.group(5))}
 
 
+LOOKS = {}        # long lookup answers (many keys), shared between the cases that gave them
+
+
+def parse_look(s):
+    look = {}
+    for kv in s.split(","):
+        if kv:
+            k, v = kv.split(":", 1)
+            look[k] = v
+    return look
+
+
 def parse_line(l):
     f = l.split(" | ")
     h = f[0].split()
     m = re.fullmatch(r"open=(\w+):(\d+):(\S*) look=(\S*) ptrace=(\S*)", f[3].strip())
-    look = {}
-    for kv in m.group(4).split(","):
-        if kv:
-            k, v = kv.split(":", 1)
-            look[k] = v
+    look = LOOKS[m.group(4)] if m.group(4).startswith("#") else parse_look(m.group(4))
     return {"wid": h[1], "k1": int(h[2]), "k2": None if h[3] == "-" else int(h[3]),
             "ph": [parse_phase(f[1]), parse_phase(f[2])],
             "open": m.group(1), "idx": int(m.group(2)), "msg": m.group(3), "look": look, "ptrace": expand(m.group(5)),
-            "raw": l}
+            "raw": l if len(l) <= 8000 else l[:8000] + " ... (%d bytes)" % len(l)}
 
 
 # ------------------------------------------------------------------ translation to model events
@@ -169,15 +373,6 @@ def group(toks, names, ev, crash_off):
     return gs, g, interior
 
 
-def batch_term(lo, n):
-    return "[" + "; ".join("(%d, %d)" % (KCODE[LOG[j][0]], j + 1) for j in range(lo, lo + n)) + "]"
-
-
-def snap_term(i):
-    m = contents(i)
-    return "[" + "; ".join("(%d, %d)" % (KCODE[k], vcode(m[k])) for k in sorted(m)) + "]"
-
-
 def res_term(res):
     if res.startswith("ok:"):
         return "(ROk %d)" % int(res[3:])
@@ -185,22 +380,30 @@ def res_term(res):
 
 
 class Defs:
-    """shared token lists of a cases file"""
+    """shared terms of a cases file (token lists, batches, snapshot contents, expected lookups)"""
+    TYPES = {"t": "list tok", "b": "list (N * N)", "s": "kvmap", "e": "list (N * option N)"}
+
     def __init__(self):
         self.names = {}
 
-    def tr(self, gs):
-        key = tuple(gs)
+    def term(self, typ, text):
+        key = (typ, text)
         if key not in self.names:
-            self.names[key] = "t%d" % len(self.names)
+            self.names[key] = "%s%d" % (typ, len(self.names))
         return self.names[key]
 
+    def tr(self, gs):
+        return self.term("t", "[" + "; ".join("(%d, %d)" % t for t in gs) + "]")
+
     def text(self, used):
-        return "".join("Definition %s : list tok := [%s].\n" % (n, "; ".join("(%d, %d)" % t for t in k))
+        return "".join("Definition %s : %s := %s.\n" % (n, self.TYPES[k[0]], k[1])
                        for k, n in self.names.items() if n in used)
 
 
-def events_of(case, defs):
+USED_RE = re.compile(r"\b[tbse]\d+\b")
+
+
+def events_of(case, defs, log):
     """model events of one executor line + monitor data"""
     ev, names = [], {}
     acked, completed_bad, in_call, last_before, last_after = 0, [], None, None, None
@@ -213,14 +416,16 @@ def events_of(case, defs):
                 continue
             toks = ph["trace"][c["start"]:c["end"]]
             k = c["kind"]
+            pos = log.pos_of(last)             # the executor's rule: the next entry is the first one with an index above last
             if k == "O":
                 o = "OOpen"
             elif k == "U":
-                o = "(OUpdate %s)" % batch_term(last, c["arg"])
+                gap = log.index_at(pos + c["arg"]) - last - c["arg"]
+                o = "(OUpdate %d %s)" % (gap, defs.term("b", log.batch_term(pos, c["arg"])))
             elif k == "Y":
                 o = "OSync"
             elif k == "R":
-                o = "(ORecover %d %s)" % (c["arg"], snap_term(last + c["arg"]))
+                o = "(ORecover %d %s)" % (log.index_at(pos + c["arg"]) - last, defs.term("s", log.snap_term(pos + c["arg"])))
             else:
                 o = "OClose"
             x = ph["crash"]
@@ -252,7 +457,7 @@ def events_of(case, defs):
             raise RuntimeError("executor and checker place the crash differently: %s vs in_call=%s in %s" % (ph["at"], in_call, case["raw"][:400]))
     gs, _, _ = group(case["ptrace"], names, len(ev), None)
     ev.append("XOp OOpen %s %s" % ("(ROk %d)" % case["idx"] if case["open"] == "ok" else "RPanic", defs.tr(gs)))
-    exp = "[" + "; ".join("(%d, %s)" % (KCODE[k], copt(vcode(case["look"].get(k, "?")))) for k in KEYS) + "]"
+    exp = defs.term("e", "[" + "; ".join("(%d, %s)" % (log.kcode[k], copt(log.vcode(case["look"].get(k, "?")))) for k in log.model_keys()) + "]")
     return {"events": ev, "exp": exp, "acked": acked, "bad": completed_bad, "in_call": in_call,
             "last_before": last_before, "last_after": last_after}
 
@@ -288,44 +493,90 @@ def run_go(ck, binp, lines, tag, workers):
             ck.violation("crash executor failed to run", {"kind": "executor", "rc": rc, "log_tail": open(lf.name).read()[-3000:]},
                          found_input=False)
             return None
-        out.extend(l for l in open(fo).read().splitlines() if l.startswith("C "))
+        ntab = 0
+        for l in open(fo):
+            if not l.startswith("C "):
+                continue
+            l = l.rstrip("\n")
+            m = re.search(r" look=(\S*) ptrace=", l)
+            if m and (m.group(1).startswith("#") or len(m.group(1)) >= 1000):
+                # an answer over many keys: parsed once per output file, later lines refer to it by number
+                if m.group(1).startswith("#"):
+                    key = "#%s.%d.%s" % (tag, procs.index((p, fo, lf)), m.group(1)[1:])
+                else:
+                    key = "#%s.%d.%d" % (tag, procs.index((p, fo, lf)), ntab)
+                    ntab += 1
+                    LOOKS[key] = parse_look(m.group(1))
+                l = l[:m.start(1)] + key + l[m.end(1):]
+            out.append(l)
     return out
 
 
 def run(ck):
     quick = ck.tier == "quick"
     NRAND = 6 if quick else 24
+    NRICH = 6 if quick else 24
+    rng = ck.rng
+    sizes = SIZES_Q if quick else SIZES_T
+    counts = COUNTS_FIXED_Q + rng.sample(COUNTS_POOL, 2) if quick else COUNTS_FIXED_Q + COUNTS_POOL + COUNTS_T
+    bounds = BOUNDS_FIXED_Q + rng.sample(BOUNDS_POOL, 2) if quick else BOUNDS_FIXED_Q + BOUNDS_POOL
     ck.cov["rule"] = (
         "workloads = 6 fixed API-call sequences (first open; updates+sync+close; recovery from a foreign snapshot then "
         "updates; close+reopen; recovery on an empty store / at the same index; recover-close-reopen-recover) + %d PRNG "
         "sequences of Open/Update(1-3 entries)/Sync/RecoverFromSnapshot(+0..4)/Close obeying the API contract, over a "
-        "%d-entry log on keys a,b,c with pairwise distinct values. Single crashes: EVERY mutating FS-operation index "
-        "0..N of every workload (N = crash after the last operation). Double crashes: phase 1 = workload crashed at k1, "
+        "%d-entry log on keys a,b,c with pairwise distinct short values and indexes 1,2,3,...; "
+        "+ value-size workloads (6 shapes x %d: one Update call with values of %s bytes alone / in the middle of a batch / "
+        "several writes of one key in one call / large values only / inside the recovered snapshot and the replaced store); "
+        "+ record-count workloads (snapshot of T records incl. the applied-index record, T in %s, recovered after updates "
+        "and on an empty store with no call afterwards); "
+        "+ index workloads (raft indexes with gaps crossing B in %s: by updates B-2,B-1,B,close,reopen,B+1, by calls whose "
+        "entries have the gap between them, and by snapshot indexes B, B+2); + %d PRNG sequences over PRNG logs mixing 3-8 keys, large values and index gaps. "
+        "Single crashes: EVERY mutating FS-operation index 0..N of every workload (N = crash after the last operation, i.e. "
+        "after the last call was acknowledged)%s. Double crashes: phase 1 = workload crashed at k1, "
         "phase 2 = '%s' on a new process crashed at k2, then reopen; quick: all (k1,k2) of 'first-open' and every 7th "
-        "pair of three more workloads; thorough: all pairs of the fixed workloads, every 2nd pair of the PRNG ones. "
+        "pair of three more workloads; thorough: all pairs of the fixed workloads, every 2nd pair of the PRNG ones, every "
+        "31st pair of the size / count (< 300 records) / index (below 2^64-100) / mixed workloads. "
         "A case is non-trivial if the crash hits a call in progress; distinct by workload and crash indexes."
-        % (NRAND, LOGLEN, PHASE2))
+        % (NRAND, LOGLEN, 1 if quick else 3, sizes, counts, bounds, NRICH,
+           "; quick tier: in the size / count / index / mixed workloads the indexes inside the first Open are left out (they do not "
+           "depend on the log), and for record counts >= 1000 the points are the first/last operation of every call, after the "
+           "last call, and every 3rd index" if quick else "", PHASE2))
     proofs_ok = ck.proofs(["theories/DiskKVRun.vo"])
     binp = ck.go_test_bin("tests", ["tests/zz_verif_crash_test.go"], tags="dragonboat_monkeytest")
     if binp is None:
         return
-    rng = ck.rng
-    workloads = list(FIXED)
-    seen = set(w for _, w in workloads)
+    # wid -> (calls, log, mode)
+    workloads = [(wid, w, BASE, "S") for wid, w in FIXED]
+    seen = set(w for _, w in FIXED)
     while len(workloads) < len(FIXED) + NRAND:
         w = random_workload(rng)
         if w not in seen:
             seen.add(w)
-            workloads.append(("prng-%d" % (len(workloads) - len(FIXED) + 1), w))
-    wl = dict(workloads)
+            workloads.append(("prng-%d" % (len(workloads) - len(FIXED) + 1), w, BASE, "S"))
+    # quick: the crash points of the first Open (the same for every log; all of them are taken in the workloads above)
+    # are left out in the workloads that vary the log
+    new_dims, M = [], "F" if quick else "S"
+    for wid, calls, lg in size_workloads(rng, sizes, 1 if quick else 3):
+        new_dims.append((wid, calls, lg, M))
+    for wid, calls, lg in count_workloads(counts):
+        new_dims.append((wid, calls, lg, "T3:%d" % rng.randrange(3) if quick and lg.n >= 900 else M))
+    for wid, calls, lg in index_workloads(bounds):
+        new_dims.append((wid, calls, lg, M))
+    for i in range(NRICH):
+        w = random_workload(rng)
+        new_dims.append(("rich-%d" % (i + 1), w, rich_log(rng, consumed(w)), M))
+    workloads += new_dims
+    wl = {wid: w for wid, w, _, _ in workloads}
+    wlog = {wid: lg for wid, _, lg, _ in workloads}
     ph2of = {}
     lines, corpus_ids = [], []
     if ck.replay:
         rj = json.load(open(ck.replay))
         f = rj["executor_input_line"].split()
         wl[f[0]] = f[3]
+        wlog[f[0]] = Log.parse(f[2])
         ph2of[f[0]] = f[4]
-        workloads, NRAND = [], 0
+        workloads, new_dims, NRAND = [], [], 0
         lines.append(rj["executor_input_line"])
     # old witnesses first
     for fn in ([] if ck.replay else sorted(glob.glob(os.path.join(ROOT, "corpus", "C16", "*.json")))):
@@ -333,38 +584,52 @@ def run(ck):
         for n, c in enumerate(cj.get("cases", [])):
             wid = "corpus-%s-%d" % (os.path.basename(fn)[:-5], n)
             wl[wid] = c["phase1"]
+            wlog[wid] = Log.parse(c["log"]) if "log" in c else BASE
             ph2of[wid] = c.get("phase2", "-")
-            lines.append("%s %s %s %s %s" % (wid, c["mode"], LOGSTR, c["phase1"], c.get("phase2", "-")))
+            lines.append("%s %s %s %s %s" % (wid, c["mode"], wlog[wid].spec, c["phase1"], c.get("phase2", "-")))
             corpus_ids.append("%s %s %s" % (wid, c["phase1"], c["mode"]))
-    for wid, w in workloads:
-        lines.append("%s S %s %s -" % (wid, LOGSTR, w))
+    for wid, w, lg, mode in workloads:
+        lines.append("%s %s %s %s -" % (wid, mode, lg.spec, w))
     dbl = []
     if ck.replay:
         pass
     elif quick:
         dbl = [("first-open", 1), ("recover-foreign-then-update", 7), ("close-reopen", 7), ("prng-1", 7)]
     else:
-        dbl = [(wid, 1) for wid, _ in FIXED] + [(wid, 2) for wid, _ in workloads[len(FIXED):]]
+        dbl = [(wid, 1) for wid, _ in FIXED] + [(wid, 2) for wid, _, _, _ in workloads[len(FIXED):len(FIXED) + NRAND]]
+        # phase 2 consumes 3 more log entries: not for logs that end at 2^64-1, not for the very large snapshots
+        dbl += [(wid, 31) for wid, _, lg, mode in new_dims if lg.n < 300 and lg.ents[-1][2] < 2 ** 64 - 100]
     for wid, stride in dbl:
-        lines.append("%s D%d %s %s %s" % (wid, stride, LOGSTR, wl[wid], PHASE2))
+        lines.append("%s D%d %s %s %s" % (wid, stride, wlog[wid].spec, wl[wid], PHASE2))
+    import time as _t
+    _t0 = _t.time()
     res = run_go(ck, binp, lines, "c16", 4 if quick else 16)
     if res is None:
         return
+    ck.cov["seconds_executor"] = round(_t.time() - _t0, 1)
     cases = [parse_line(l) for l in res]
     # ---------------- monitors
     defs = Defs()
-    items, stats, nviol = [], {}, {}
+    items, stats, nviol, diffcache = [], {}, {}, {}
+
+    def input_line(case, wid=None):
+        w = case["wid"]
+        mode = ("s:%d" % case["k1"]) if case["k2"] is None else ("d:%d:%d" % (case["k1"], case["k2"]))
+        return "%s %s %s %s %s" % (wid or w, mode, wlog[w].spec, wl.get(w, "?"),
+                                   ph2of.get(w, PHASE2) if case["k2"] is not None else "-")
+
     def viol(kind, what, case, extra):
         nviol[kind] = nviol.get(kind, 0) + 1
         if nviol[kind] > 3:
             return
         wid = case["wid"]
-        mode = ("s:%d" % case["k1"]) if case["k2"] is None else ("d:%d:%d" % (case["k1"], case["k2"]))
         ph1 = wl.get(wid, "?")
+        lg = wlog[wid]
         rp = {"kind": "monitor:" + kind, "workload": wid, "phase1_calls": ph1,
               "phase2_calls": ph2of.get(wid, PHASE2) if case["k2"] is not None else None,
+              "log_entries_key_value_index": [list(e) for e in lg.ents[:40]] + (["... %d entries" % lg.n] if lg.n > 40 else []),
               "crash_at_fs_operation_index": case["k1"], "second_crash_at_fs_operation_index": case["k2"],
-              "executor_input_line": "%s %s %s %s %s" % (wid, mode, LOGSTR, ph1, ph2of.get(wid, PHASE2) if case["k2"] is not None else "-"),
+              "executor_input_line": input_line(case),
               "observed": case["raw"][:6000]}
         for n, ph in enumerate(case["ph"]):
             if ph is not None and 0 <= ph["crash"] < len(ph["trace"]):
@@ -372,19 +637,24 @@ def run(ck):
         rp.update(extra)
         ck.violation(what, rp)
     for case in cases:
-        e = events_of(case, defs)
         wid = case["wid"]
+        lg = wlog[wid]
+        e = events_of(case, defs, lg)
         key = "%s/%s/%s" % (wid, case["k1"], case["k2"])
         ck.count_case(key, nontrivial=e["in_call"] is not None)
         st = stats.setdefault(wid, {"calls": wl.get(wid, "?"), "fs_ops_phase1": 0,
                                     "single_crash_points": 0, "double_crash_points": 0,
                                     "outcome": {"state_before_interrupted_call": 0, "state_after_interrupted_call": 0,
                                                 "call_without_effect_or_idle": 0, "other": 0}})
+        if lg is not BASE:
+            st["log"] = lg.spec if len(lg.spec) < 300 else lg.spec[:300] + "... (%d entries, last index %d)" % (lg.n, lg.ents[-1][2])
         st["fs_ops_phase1"] = max(st["fs_ops_phase1"], case["ph"][0]["n"])
         st["single_crash_points" if case["k2"] is None else "double_crash_points"] += 1
-        where = "workload %s (%s), crash at FS operation %d%s%s" % (
-            wid, st["calls"], case["k1"], "" if case["k2"] is None else ", second crash at operation %d of the recovery run" % case["k2"],
-            "" if e["in_call"] is None else ", interrupted call %s" % e["in_call"])
+        where = "workload %s (%s), crash at FS operation %d%s%s%s" % (
+            wid, st["calls"],
+            case["k1"], "" if case["k2"] is None else ", second crash at operation %d of the recovery run" % case["k2"],
+            "" if e["in_call"] is None else ", interrupted call %s" % e["in_call"],
+            "" if lg is BASE else "; log " + (lg.spec if len(lg.spec) < 200 else lg.spec[:200] + "... (%d entries)" % lg.n))
         ok = True
         for (k, a, r) in e["bad"]:
             ok = False
@@ -395,12 +665,23 @@ def run(ck):
                  {"open_result": case["open"], "message": case["msg"]})
         else:
             i = case["idx"]
-            want = contents(i) if i <= LOGLEN else None
-            got = {k: case["look"].get(k, "?") for k in KEYS}
-            if want is None or any(got[k] != want.get(k, "") for k in KEYS):
+            pos = lg.pos_of(i)
+            want = lg.contents(pos) if pos <= lg.n + 1000 else None
+            got = case["look"]
+            ckey = (id(got), pos, id(lg))
+            if ckey not in diffcache:
+                diffcache[ckey] = sorted(k for k in lg.keys if want is None or got.get(k, "?") != want.get(k, ""))
+            diff = diffcache[ckey]
+            if diff:
                 ok = False
-                viol("contents", "after reopen the machine reports index %d but its contents %s are not the result of applying exactly "
-                     "the entries <= %d (%s); %s" % (i, got, i, want, where), case, {"index": i, "lookups": got, "expected": want})
+                show = diff[:6]
+                viol("contents", "after reopen the machine reports index %d but its contents are not the result of applying exactly the "
+                     "log entries with an index <= %d (the first %d entries): %d of %d keys differ, e.g. %s; %s"
+                     % (i, i, pos, len(diff), len(lg.keys),
+                        ", ".join("%s holds %r, must hold %r" % (k, got.get(k, "?"), None if want is None else want.get(k, "")) for k in show), where),
+                     case, {"index": i, "entries_applied_according_to_index": pos, "keys_differing": diff[:50],
+                            "lookups": {k: got.get(k, "?") for k in diff[:50]},
+                            "expected": None if want is None else {k: want.get(k, "") for k in diff[:50]}})
             if i < e["acked"]:
                 ok = False
                 viol("acked", "after reopen the machine reports index %d, lower than the acknowledged index %d; %s" % (i, e["acked"], where),
@@ -418,6 +699,8 @@ def run(ck):
     ck.cov["workloads"] = stats
     ck.cov["crash_points_single"] = sum(s["single_crash_points"] for s in stats.values())
     ck.cov["crash_points_double"] = sum(s["double_crash_points"] for s in stats.values())
+    ck.cov["dimensions"] = {"value_sizes_bytes": sizes, "snapshot_record_counts": counts, "index_boundaries": [str(b) for b in bounds],
+                            "largest_index": str(max(lg.ents[-1][2] for lg in wlog.values()))}
     tot = {}
     for s in stats.values():
         for k, v in s["outcome"].items():
@@ -426,10 +709,10 @@ def run(ck):
     ck.cov["monitor_failures"] = dict(nviol)
     ck.cov["corpus_cases_run_first"] = corpus_ids
     ck.cov["exhaustive"] = False
-    ck.cov["exhaustive_part"] = "every FS-operation index of each listed workload is a crash point (no sampling of single crash points)"
+    ck.cov["exhaustive_part"] = "every FS-operation index of each listed workload is a crash point (no sampling of single crash points, except - quick tier only - see rule)"
     for case, e, ok in items[:1] + items[len(items) // 3:len(items) // 3 + 1] + items[-1:]:
         ck.sample({"workload": case["wid"], "k1": case["k1"], "k2": case["k2"], "model_events": e["events"],
-                   "observed": "open=%s:%d look=%s" % (case["open"], case["idx"], case["look"])})
+                   "observed": "open=%s:%d look=%s" % (case["open"], case["idx"], dict(list(case["look"].items())[:12]))})
     # ---------------- model side
     if not proofs_ok:
         return
@@ -440,11 +723,14 @@ def run(ck):
         if not sel:
             return []
         nsh = max(1, min(16, len(sel) // 150))
-        shards = [sel[i::nsh] for i in range(nsh)]
+        # cases of one workload share their terms: keep them in one shard
+        order = sorted(sel, key=lambda i: (its[i][0]["wid"].split("-")[0] == "rerun", its[i][0]["wid"]))
+        per = (len(order) + nsh - 1) // nsh
+        shards = [order[i:i + per] for i in range(0, len(order), per)]
         jobs = []
         for si, shd in enumerate(shards):
             body = ";\n".join("xcase %s [%s] %s" % (cbool(chk), "; ".join(its[i][1]["events"]), its[i][1]["exp"]) for i in shd)
-            used = set(re.findall(r"\bt\d+\b", body))
+            used = set(USED_RE.findall(body))
             jobs.append(("%s%d" % (prefix, si), hdr + defs.text(used) + "Definition cases : list bool := [\n" + body +
                          "\n].\nDefinition M := Eval vm_compute in false_ix cases.\nPrint M.\n"))
         outs = ck.coq_eval_par(jobs, timeout=3000)
@@ -457,7 +743,10 @@ def run(ck):
             bad.extend(shards[si][j] for j in b)
         return sorted(bad)
 
+    ck.cov["seconds_monitors"] = round(_t.time() - _t0 - ck.cov["seconds_executor"], 1)
+    _t1 = _t.time()
     mism = evaluate(items, list(range(len(items))), True, "c16a")
+    ck.cov["seconds_model"] = round(_t.time() - _t1, 1)
     if mism is None:
         return
     ck.cov["traces_validated_against_impl"] = len(items)
@@ -474,19 +763,19 @@ def run(ck):
     redo, rlines = mism[:LIMIT], []
     for n, i in enumerate(redo):
         case = items[i][0]
-        mode = ("s:%d" % case["k1"]) if case["k2"] is None else ("d:%d:%d" % (case["k1"], case["k2"]))
         for r in range(RERUN):
             wid = "rerun-%d-%d" % (n, r)
             wl[wid] = wl.get(case["wid"], "?")
+            wlog[wid] = wlog[case["wid"]]
             ph2of[wid] = ph2of.get(case["wid"], PHASE2)
-            rlines.append("%s %s %s %s %s" % (wid, mode, LOGSTR, wl[wid], ph2of[wid] if case["k2"] is not None else "-"))
+            rlines.append(input_line(case, wid))
     rres = run_go(ck, binp, rlines, "c16r", 1)
     if rres is None:
         return
     ritems = []
     for l in rres:
         c = parse_line(l)
-        ritems.append((c, events_of(c, defs), True))
+        ritems.append((c, events_of(c, defs, wlog[c["wid"]]), True))
     rbad = evaluate(ritems, list(range(len(ritems))), True, "c16r")
     if rbad is None:
         return
@@ -512,12 +801,12 @@ def run(ck):
     i = confirmed[0]
     case, e, ok = items[i]
     what = "outcome after reopen" if i in ob else "node-directory operation trace (order/kind of FS operations of a call)"
+    used = set(USED_RE.findall(" ".join(e["events"]) + " " + e["exp"]))
     ck.violation("model and implementation disagree on %d of %d crash cases (%s), reproduced in %d of %d re-executions each, but no property monitor "
                  "failed; first: workload %s (%s) k1=%s k2=%s" % (len(confirmed), len(items), what, RERUN, RERUN, case["wid"], wl.get(case["wid"], "?"),
                                                                   case["k1"], case["k2"]),
                  {"kind": "correspondence", "engine": "crash", "n_disagreements": len(confirmed), "n_outcome": len(ob),
                   "first_case_model_events": e["events"], "first_case_expected_lookups": e["exp"],
+                  "first_case_term_definitions": defs.text(used)[:6000],
                   "first_case_observed": case["raw"][:6000], "theorems": ck.cov.get("theorems"),
-                  "executor_input_line": "%s %s %s %s %s" % (
-                      case["wid"], ("s:%d" % case["k1"]) if case["k2"] is None else ("d:%d:%d" % (case["k1"], case["k2"])), LOGSTR,
-                      wl.get(case["wid"], "?"), ph2of.get(case["wid"], PHASE2) if case["k2"] is not None else "-")}, found_input=False)
+                  "executor_input_line": input_line(case)}, found_input=False)
